@@ -672,7 +672,7 @@ func main() {
 	seen0 := map[string]bool{}
 
 	runCorpus(f, meta, cf, rg, &id0, seen0)
-	nStores := f.Count(24, 1200)
+	nStores := f.Count(20, 1200)
 	perStore := 8
 	id := id0
 	seen := seen0
@@ -1132,7 +1132,7 @@ func runCase(f gallina.Flags, meta *gallina.Meta, cf *gallina.CaseFile, rg *rig,
 	}
 }
 
-const perShard = 120
+const perShard = 400
 
 var basePreamble string
 
